@@ -59,6 +59,10 @@ func RunS2(c *core.Ctx) {
 				if strings.HasSuffix(n, ".go.meta") && strings.Contains(sc.Param, "annotate_code=true") {
 					continue
 				}
+				// companion files of the stock protoc-gen-go (Schema.PbGo)
+				if strings.HasSuffix(n, ".pb.go") {
+					continue
+				}
 				got = append(got, n)
 			}
 			sort.Strings(got)
